@@ -92,7 +92,7 @@ def norm(s):
 
 def analyse(repo):
     r = dict(ok=False, detail="", atomic=False, stop_atomic=False, global_atomic=False, polls_solve=0, polls_search=0,
-             polls_elim=0, polls_lookahead=0, poll_after_conflict=True, anchors={}, notes=[])
+             polls_elim=0, polls_bwdsub=0, polls_elsewhere=0, polls_lookahead=0, poll_after_conflict=True, anchors={}, notes=[])
 
     def rd(rel):
         return strip_comments(open(os.path.join(repo, rel)).read())
@@ -174,12 +174,43 @@ def analyse(repo):
     if b is None:
         return fail("SimpSMTSolver::eliminate not found")
     r["polls_elim"], r["anchors"]["eliminate"] = polls(b), "SimpSMTSolver.cc:%d" % ln
+    # The polls of the simplifier must sit BETWEEN whole units of clause-database surgery (the model's
+    # elim_work is "the work up to the next poll" and is assumed to leave an equisatisfiable database):
+    #   eliminate(): once per round of the main loop (then `goto cleanup`) and once per variable taken from the heap,
+    #   backwardSubsumptionCheck(): at the head of its loop, before a clause is taken from the queue.
+    ne = norm(strip_asserts(b))
+    if polls(b) and (not re.search(r"if\(notokContinue\(\)\)\{;*elim_heap\.clear\(\);gotocleanup;\}", ne) or
+                     "Varelim=elim_heap.removeMin();if(notokContinue())break;" not in ne or polls(b) != 2):
+        return fail("the polls of SimpSMTSolver::eliminate are not the two the model has (per round: clear heap and goto cleanup; "
+                    "per variable: right after elim_heap.removeMin())")
+    bb, lnb = body_of(ss, r"\bbool\s+SimpSMTSolver\s*::\s*backwardSubsumptionCheck\s*\([^)]*\)\s*\{")
+    if bb is None:
+        return fail("SimpSMTSolver::backwardSubsumptionCheck not found")
+    r["polls_bwdsub"], r["anchors"]["backwardSubsumptionCheck"] = polls(bb), "SimpSMTSolver.cc:%d" % lnb
+    nbb = norm(strip_asserts(bb))
+    if polls(bb) and (polls(bb) != 1 or not re.search(
+            r"while\(subsumption_queue\.size\(\)>0\|\|bwdsub_assigns<trail\.size\(\)\)\{if\(notokContinue\(\)\)\{subsumption_queue\.clear\(\);bwdsub_assigns=trail\.size\(\);break;\}", nbb)):
+        return fail("the poll of backwardSubsumptionCheck is not at the head of its loop")
     b, ln = body_of(la, r"\blbool\s+LookaheadSMTSolver\s*::\s*solve_\s*\(\s*\)\s*\{")
     if b is None:
         return fail("LookaheadSMTSolver::solve_ not found")
     r["polls_lookahead"], r["anchors"]["lookahead_solve_"] = polls(b), "LookaheadSMTSolver.cc:%d" % ln
     if r["polls_lookahead"] and not re.search(r"while\s*\([^)]*okContinue\s*\(\s*\)", strip_asserts(b)):
         return fail("LookaheadSMTSolver::solve_ polls the flag somewhere else than in its loop condition")
+    total = 0
+    srcroot = os.path.join(repo, "src")
+    for d, _, fs in os.walk(srcroot):
+        if os.path.relpath(d, srcroot).split(os.sep)[0] in ("parallel", "bin"):
+            continue
+        for f in fs:
+            if f.endswith((".cc", ".h", ".hpp", ".C")):
+                txt = strip_comments(open(os.path.join(d, f), errors="replace").read())
+                txt = re.sub(r"\b(?:CoreSMTSolver\s*::\s*)okContinue\s*\(\s*\)\s*const", "", txt)          # the definition
+                txt = re.sub(r"\bbool\s+okContinue\s*\(\s*\)\s*const", "", txt)                               # declarations
+                total += polls(txt)
+    r["polls_elsewhere"] = total - (r["polls_solve"] + r["polls_search"] + r["polls_elim"] + r["polls_bwdsub"] + r["polls_lookahead"])
+    if r["polls_elsewhere"]:
+        r["notes"].append("%d poll(s) of okContinue() outside solve_/search/eliminate/backwardSubsumptionCheck/lookahead solve_" % r["polls_elsewhere"])
     whole_la = polls(la)
     if whole_la != r["polls_lookahead"]:
         r["notes"].append("LookaheadSMTSolver.cc polls okContinue() at %d place(s) outside solve_" % (whole_la - r["polls_lookahead"]))
@@ -225,13 +256,17 @@ Definition atomic : bool := %s.
 Definition polls_solve : nat := %d.
 Definition polls_search : nat := %d.
 Definition polls_eliminate : nat := %d.
+Definition polls_backward_subsumption : nat := %d.
+(* calls anywhere else in src/ (parallel/ excluded): a poll in a region the model treats as one atomic piece of work *)
+Definition polls_elsewhere : nat := %d.
 Definition polls_lookahead_solve : nat := %d.
 Definition lookahead_polls : bool := %s.
 (* search(): is `if (not okContinue()) break;` after propagate() executed even when propagate() returned a
    conflict (true), or is the conflict handled first (false)? *)
 Definition poll_after_conflict : bool := %s.
 """ % (r["detail"], ", ".join("%s=%s" % kv for kv in sorted(r["anchors"].items())), b(r["stop_atomic"]), b(r["global_atomic"]),
-       b(r["atomic"]), r["polls_solve"], r["polls_search"], r["polls_elim"], r["polls_lookahead"], b(r["polls_lookahead"] > 0), b(r["poll_after_conflict"]))
+       b(r["atomic"]), r["polls_solve"], r["polls_search"], r["polls_elim"], r["polls_bwdsub"], r["polls_elsewhere"], r["polls_lookahead"], b(r["polls_lookahead"] > 0),
+       b(r["poll_after_conflict"]))
 
 
 def regenerate(repo, out=OUT):
